@@ -164,6 +164,7 @@ class Scn:
     state_field: str = "state"
     extra_events: dict = field(default_factory=dict)   # event id >= 100 -> arbitrary name (never declared)
     model_shape: str = "plain"                    # plain | len0 | boolF  (falsy model objects)
+    bind_model: bool = False                      # `sm.bind_events_to(model)` right after construction
     alias_sub: list = field(default_factory=list) # [e1, e2]: event e1 is a class attribute of a base class and the
                                                   # machine is `class Sub(Base): <e2> = Base.<e1>`: the transitions
                                                   # declared for e1 carry e2 (only) in the subclass
@@ -310,7 +311,7 @@ def used_toks(scn: Scn):
     if scn.cur0 is not None:
         t.add(scn.cur0)
     for o in scn.ops:
-        if o[0] == "write":
+        if o[0] == "write" or (o[0] == "fresh" and o[1] is not None):
             t.add(o[1])
     return sorted(t)
 
@@ -371,6 +372,10 @@ def model_lines(scn: Scn, live=None, kind="engine"):
             ops_out.append(f"op swap {k}")
         elif op[0] == "send":
             ops_out.append(f"op send {op[1]}")
+        elif op[0] == "fresh":
+            ops_out.append(f"op fresh {'-' if op[1] is None else op[1]}")
+        elif op[0] == "set_allow":
+            ops_out.append(f"op set_allow {int(bool(op[1]))}")
         else:
             ops_out.append("op " + " ".join(str(x) for x in op))
     for (cb, lo, hi, ret, rz, sends) in scn.acts:
@@ -790,14 +795,17 @@ class Session:
         rt.listeners = listeners
         self.cls, self.listeners = cls, listeners
 
-    def op_construct(self):
+    def op_construct(self, start="scn"):
         rt, scn = self.rt, self.scn
         if getattr(rt.model, scn.state_field, None) is None:
             rt.initial_tid = rt.next_tid
             rt.next_tid += 1
         kw = {}
-        if scn.start is not None:
-            kw["start_value"] = POOL[scn.start]
+        if start == "scn":      # the start_value in force: the scenario's, or the last `fresh` operation's
+            start = getattr(self, "cur_start", scn.start)
+        self.cur_start = start
+        if start is not None:
+            kw["start_value"] = POOL[start]
         if scn.state_field != "state":
             kw["state_field"] = scn.state_field
         self.ctor_list = [self.listeners[p] for p in scn.listeners_ctor]
@@ -806,6 +814,10 @@ class Session:
                  listeners=self.ctor_list, **kw)
         rt.bound = type("Bound", (), {})()
         rt.sm.bind_events_to(rt.bound)
+        if scn.bind_model:
+            with warnings.catch_warnings():
+                warnings.simplefilter("ignore")
+                rt.sm.bind_events_to(rt.model)
         return None
 
     def ev_name(self, e):
@@ -832,6 +844,8 @@ class Session:
                 cands = []
             if cands:
                 return cands[0](_tid=EqTag(tid))
+        if style == "modelbound" and declared and name in getattr(rt.model, "__dict__", {}):
+            return getattr(rt.model, name)(_tid=EqTag(tid))
         if style == "bound" and declared and hasattr(rt.bound, name):
             return getattr(rt.bound, name)(_tid=EqTag(tid))
         return sm.send(name, _tid=EqTag(tid))
@@ -845,6 +859,12 @@ class Session:
             return "R", self.op_construct()
         if op[0] == "send":
             return "R", self.op_send(op[1], op[2] if len(op) > 2 else "send")
+        if op[0] == "fresh":        # another instance of the same class over a fresh model
+            rt.model = type(rt.model)()
+            return "R", self.op_construct(start=op[1])
+        if op[0] == "set_allow":    # the public option is a plain attribute
+            rt.sm.allow_event_without_transition = bool(op[1])
+            return "R", None
         if op[0] == "write":        # somebody else assigns the model field
             setattr(rt.model, self.scn.state_field, POOL[op[1]])
             return "R", None
@@ -891,7 +911,7 @@ class Session:
             rt.lines.append(f"R {i} ok {rt.fmt_res(r)} cur={rt.seen()} tid={self.cur_tid}")
         except Exception as e:
             rt.lines.append(f"R {i} err {rt.exc_s(e)} cur={rt.seen()} tid={self.cur_tid}")
-            if op[0] in ("construct", "reconstruct"):
+            if op[0] in ("construct", "reconstruct", "fresh"):
                 self.dead = True
 
     def step_sync(self, i, op):
@@ -907,7 +927,7 @@ class Session:
             rt.lines.append(f"R {i} ok {rt.fmt_res(r)} cur={rt.seen()} tid={self.cur_tid}")
         except Exception as e:
             rt.lines.append(f"R {i} err {rt.exc_s(e)} cur={rt.seen()} tid={self.cur_tid}")
-            if op[0] in ("construct", "reconstruct"):
+            if op[0] in ("construct", "reconstruct", "fresh"):
                 self.dead = True
 
 
